@@ -564,6 +564,63 @@ def probe_reserved(ctx, b):
                                f"`ENTITY {k};` is accepted: `{k}` is a Python keyword the generator never uses as an identifier")); return
 
 
+WIDTH_SCHEMA = """SCHEMA wd;
+TYPE code = STRING(3) FIXED; END_TYPE;
+ENTITY e;
+  s : STRING(3);
+  f : STRING(3) FIXED;
+  b : BINARY(4) FIXED;
+  c : code;
+  l : LIST [0:?] OF STRING(2);
+END_ENTITY;
+END_SCHEMA;
+"""
+WIDTH_PROBE = """
+import sys, json
+sys.path.insert(0, sys.argv[1]); sys.path.insert(0, '.')
+import wd
+from stepcode.SimpleDataTypes import STRING, BINARY
+from stepcode.AggregationDataTypes import LIST
+o = wd.e(STRING('abc'), STRING('abc'), BINARY('1010'), wd.code('abc'), None)
+out = {}
+for name, good, bad in (('s', STRING('ab'), STRING('abcdef')), ('f', STRING('xyz'), STRING('a')), ('b', BINARY('0101'), BINARY('1')),
+                        ('c', wd.code('xyz'), wd.code('toolong'))):
+    row = []
+    for v in (good, bad):
+        try:
+            setattr(o, name, v); row.append('accepted')
+        except Exception as ex:
+            row.append('refused ' + type(ex).__name__)
+    out[name] = row
+print(json.dumps(out))
+"""
+
+
+def probe_widths(ctx, b):
+    """width specifications (`STRING(3)`, `STRING(3) FIXED`, `BINARY(4) FIXED`, a defined type over one): a value within the width
+    must be accepted by the attribute's setter, a value outside it refused (ISO 10303-11 8.1.6, 8.1.7)"""
+    d = os.path.join(ctx.work, "widths")
+    os.makedirs(d, exist_ok=True)
+    open(os.path.join(d, "wd.exp"), "w").write(WIDTH_SCHEMA)
+    r = subprocess.run([b.tool("exp2python"), "wd.exp"], cwd=d, env=b.env(), capture_output=True, text=True, timeout=TOOL_TIMEOUT)
+    ctx.count(1, key="widths")
+    if r.returncode != 0:
+        ctx.violation("type:width-spec:exit-status", f"exp2python exited {r.returncode} on width specifications: {r.stderr[-200:]!r}", {"schema": WIDTH_SCHEMA}); return
+    h = subprocess.run([sys.executable, "-B", "-c", WIDTH_PROBE, os.path.join(B.REPO, "src", "exp2python", "python")], cwd=d, capture_output=True, text=True, timeout=60)
+    try:
+        res = json.loads(h.stdout)
+    except Exception:
+        ctx.violation("type:width-spec:probe", f"the module for width specifications cannot be probed: {h.stderr.strip().splitlines()[-1:]}", {"schema": WIDTH_SCHEMA}); return
+    ctx.cov["correspondence"]["width-specifications"] = res
+    bad_good = [n for n, (g, _) in res.items() if g != "accepted"]
+    bad_bad = [n for n, (_, w) in res.items() if w == "accepted"]
+    if bad_good:
+        ctx.violation("type:width-spec-refuses-conforming-value", f"a value within the declared width is refused for {bad_good}: {res}", {"schema": WIDTH_SCHEMA, "probe": WIDTH_PROBE})
+    elif bad_bad:
+        ctx.violation("type:width-spec-dropped", f"a value outside the declared width is accepted by the setters of {bad_bad} (the emitted type is the bare STRING / BINARY): {res}",
+                      {"schema": WIDTH_SCHEMA, "probe": WIDTH_PROBE, "how": "run the scratch exp2python on the schema, then the probe with the runtime directory as argument"})
+
+
 def batches(ctx):
     quick = ctx.tier == "quick"
     cdir = os.path.join(VERIF, "corpus", "C18")
@@ -657,6 +714,7 @@ def run(ctx):
         multi.insert(0, (open(hang).read(), ["s_bebe", "s_ne"]))
     run_multi(ctx, run_.b, multi)
     probe_reserved(ctx, run_.b)
+    probe_widths(ctx, run_.b)
     CB.run_bodies(ctx, run_.b, ctx.model_exe("m_c18"))
     CB.run_functions(ctx, run_.b, exe=ctx.model_exe("m_c18"))
     ctx.sample({"schema": all_s[-1].express(), "introspection": all_r[-1][2]["line"][:600]})
